@@ -38,15 +38,20 @@ for p in props:
         'level_note': getattr(mod, 'LEVEL_NOTE', '; '.join(getattr(mod, 'ASSUMPTIONS', []))),
         'technique': getattr(mod, 'TECHNIQUE', 'static analysis (ast): path enumeration, call resolution, guard/dataflow rules'),
     })
-    for e in getattr(mod, 'ENGINES', ['pyindex', 'paths']):
+    for e in list(getattr(mod, 'ENGINES', ['pyindex', 'paths'])) + ['normalise', 'inline']:
         engines_used.setdefault(e, []).append(pid)
+    if pid in ('C02', 'C13', 'C15'):
+        engines_used.setdefault('flows', []).append(pid)
 
 ENG = {
     'pyindex': ('sa/pyindex.py + sa/calls.py', 'resolved program: imports, classes, MRO, registries, call graph (source only)'),
     'paths': ('sa/paths.py + sa/cond.py', 'per-function path enumeration (syntax-directed CFG), branch-condition normal form, dominance queries'),
-    'grammar': ('sa/grammar.py', 'abstract evaluation of the pyparsing definitions into a grammar IR; results-name flow, vocabularies, multiplicities'),
+    'grammar': ('sa/grammar.py + sa/gtools.py', 'abstract evaluation of the pyparsing definitions into a grammar IR; results-name flow, vocabularies, multiplicities'),
     'strctx': ('sa/strctx.py', 'string-context analysis of renderer templates (f-strings/joins), writer/reader token agreement'),
     'effects': ('sa/effects.py', 'mutation/freshness analysis over the call-graph closure'),
+    'normalise': ('sa/normalise.py', 'semantics-preserving canonicalisation and desugaring of every parsed module (one spelling per idiom) before any rule reads it'),
+    'inline': ('sa/inline.py', 'helper inliner (guard clauses, search loops, nested calls, expression form) used when a rule reads through an extracted helper'),
+    'flows': ('sa/flows.py', 'reader token classes per model attribute (grammar -> action -> blueprint -> model) and light typing of renderer variables'),
 }
 engines = [{'name': k, 'path': ENG[k][0], 'serves_properties': sorted(set(v)), 'kind_free_text': ENG[k][1]}
            for k, v in sorted(engines_used.items()) if k in ENG]
